@@ -232,6 +232,10 @@ class SmtLibSolver(Solver): # TODO this class is defined twice in pysmt. Here an
             if all(d not in dv for dv in self.declared_vars):
                 raise PysmtValueError("Symbol '%s' is not known to the solver: "
                                       "cannot get its value" % d)
+        for s in self.to.get_types(item, custom_only=True):
+            if all(s not in ds for ds in self.declared_sorts):
+                raise PysmtValueError("Sort '%s' is not known to the solver: "
+                                      "cannot get the value of a term using it" % s)
         self._send_command(SmtLibCommand(smtcmd.GET_VALUE, [item]))
         lst = self._get_value_answer()
         assert len(lst) == 1
